@@ -202,7 +202,9 @@ def mk_header(rng, size, comp=None, ver=None):
     return dict(ver=rng.randrange(256) if ver is None else ver, hdr_len=rng.randrange(256), time_flg=rng.randrange(256),
                 endian_flg=rng.choice((0x42, 0x4c, rng.randrange(256))), comp=comp,
                 reserved=bytes(rng.randrange(256) for _ in range(4)), size=size,
-                wrap=rng.choice((0, 1, 0xFFFFFFFF, rng.randrange(1 << 32))), next_free=rng.randrange(1 << 32))
+                wrap=rng.choice((0, 0, 1, 0xFFFFFFFF, rng.randrange(1 << 32))),
+                # the next-free offset is only shown, never used to bound the entries: small values (inside the buffer) included
+                next_free=rng.choice((0, 32, rng.randrange(0, min(size, 1 << 16) + 1), size & 0xFFFFFFFF, rng.randrange(1 << 32))))
 
 
 def py_encode_header(h):
